@@ -64,6 +64,22 @@ CHECKS = {
                      "length 5-16 x the maximum message size, several chunk sizes, fed to the real readers; after every read() the octets reachable from the reader minus the chunk must stay <= 3 x M.",
                 note="Trusted: z3, symx proxies (per-path pristine replay). Retained size is counted as octets held in reachable sequences, not sys.getsizeof. No MiB-scale streams.",
                 technique="bounded symbolic execution of the real readers on periodic streams with a symbolic period (z3 decides the pattern classes); size bound checked after every call"),
+    "C17": dict(level="model_checking", design="§4 C17",
+                text="The real connect_loop/close/_try_connect run with the real asyncio Task/Event/wait/sleep on a virtual-time event loop whose timer deadlines are z3 terms: per-attempt outcome, "
+                     "latency, loss and lifetime and the instant of close() (any half-second, then 0..k further loop iterations at that instant) are symbolic. Each path is one event-ordering class "
+                     "that the solver shows realisable; on its trace: at most one live transport, no attempt while connected, reconnects after every failure/loss, after close(): connect_loop returns "
+                     "at the same virtual instant, no later attempt, every transport closed; pending tasks do not grow from one reconnect cycle to the next. Every path's model is replayed on the "
+                     "real SelectorEventLoop scheduler driven by a fake clock and must give the identical trace.",
+                note="Trusted: z3, the VLoop model of the scheduler (validated per path against the real asyncio scheduler), scripted factory/transport fakes. 4/6 attempts, 2/3 losses, whole-second "
+                     "latencies/lifetimes 0..2 s.",
+                technique="symbolic execution of the real coroutine code on a virtual-time loop with symbolic deadlines (z3 decides event orderings); bounded model checking of ordering classes"),
+    "C18": dict(level="model_checking", design="§4 C18",
+                text="Inductive-step lemma on the real ExponentialBackOff methods from an arbitrary invariant state (n and max_delay unbounded integers, pow2 uninterpreted with its defining instances): "
+                     "every operation re-establishes the invariant and reports min(2^(n-1), max_delay). All failure/reset sequences of 10/14 calls with free max_delay. Manager traces on the virtual-time loop "
+                     "(6/8 attempts, 3 losses, default configuration; 4/6 attempts with max_delay, threshold and sleep free in 1..3600): every attempt starts no sooner than the capped back-off after "
+                     "the failure and no later than max(back-off, breaker sleep); success resets; two losses within the threshold delay the next attempt by at least the sleep.",
+                note="Trusted: z3, VLoop (validated per path against the real asyncio scheduler), virtual utcnow. Durations are whole seconds; virtual time has no scheduling slack.",
+                technique="inductive-step SMT lemma over symbolically executed real methods + bounded symbolic execution of call sequences and of connect_loop with symbolic timing (z3)"),
 }
 
 NOT_YET = {}
